@@ -444,7 +444,7 @@ theorem code_matches_model :
        "close(r.done)"] ∧
     Gen.Client.msetChildDone =
       ["wait := r.childWait.Dec()",
-       "if wait == 0 { r.raw.SetResponse(respOK) }"] ∧
+       "if wait == 0 { r.setResponse() }"] ∧
     Gen.Client.mgetChildDone =
       ["wait := r.childWait.Dec()",
        "if wait == 0 { r.setResponse() }"] ∧
